@@ -4,7 +4,9 @@ import (
 	"bytes"
 	"encoding/json"
 	"fmt"
+	"go/ast"
 	"go/token"
+	"go/types"
 	"os"
 	"os/exec"
 	"path/filepath"
@@ -633,4 +635,84 @@ func replayRulePkg(rc *runCtx, h *harness, v *interp.Violation, file string) (bo
 		return false, "native: the user rule sees the package of the file being analysed in both orders"
 	}
 	return false, "native run inconclusive: " + lastLines(out, 3)
+}
+
+// ---- C12 caseOrder: native confirmation. The real checker analyses a small family of
+// programs (a nil case after an interface case; same-named function-local types of which
+// only one implements the interface, in both orders); every "case X must go before the Y
+// case" diagnostic is judged with go/types: X must be a type (not nil) implementing Y.
+var caseOrderPrograms = []string{
+	"package cand\n\nfunc f(v interface{}) int {\n\tswitch v.(type) {\n\tcase interface{}:\n\t\treturn 1\n\tcase nil:\n\t\treturn 2\n\t}\n\treturn 0\n}\n",
+	"package cand\n\nfunc f(v interface{}) int {\n\tswitch v.(type) {\n\tcase any:\n\t\treturn 1\n\tcase nil:\n\t\treturn 2\n\t}\n\treturn 0\n}\n",
+	"package cand\n\ntype base struct{}\n\nfunc (base) Error() string { return \"\" }\n\nfunc f1(v interface{}) int {\n\ttype failure struct{ base }\n\tswitch v.(type) {\n\tcase error:\n\t\treturn 1\n\tcase failure:\n\t\treturn 2\n\t}\n\treturn 0\n}\n\nfunc f2(v interface{}) int {\n\ttype failure struct{ code int }\n\tswitch v.(type) {\n\tcase error:\n\t\treturn 1\n\tcase failure:\n\t\treturn 2\n\t}\n\treturn 0\n}\n",
+	"package cand\n\ntype base struct{}\n\nfunc (base) Error() string { return \"\" }\n\nfunc f2(v interface{}) int {\n\ttype failure struct{ code int }\n\tswitch v.(type) {\n\tcase error:\n\t\treturn 1\n\tcase failure:\n\t\treturn 2\n\t}\n\treturn 0\n}\n\nfunc f1(v interface{}) int {\n\ttype failure struct{ base }\n\tswitch v.(type) {\n\tcase error:\n\t\treturn 1\n\tcase failure:\n\t\treturn 2\n\t}\n\treturn 0\n}\n",
+}
+
+func replayCaseOrder(rc *runCtx, h *harness, v *interp.Violation, file string) (bool, string) {
+	if v.Kind == "panic" {
+		return false, "harness"
+	}
+	results, err := runRealised("caseOrder", nil, caseOrderPrograms, "")
+	if err != nil {
+		return false, err.Error()
+	}
+	for i, r := range results {
+		if r.Status != "OK" || i >= len(caseOrderPrograms) {
+			continue
+		}
+		var ws []struct {
+			Text   string
+			Offset int
+			Line   int
+		}
+		json.Unmarshal([]byte(r.JSON), &ws)
+		if len(ws) == 0 {
+			continue
+		}
+		src := caseOrderPrograms[i]
+		_, f, info, _, err := tvLoad(src)
+		if err != nil {
+			continue
+		}
+		for _, w := range ws {
+			// the clause at the diagnostic's offset
+			var clause *ast.CaseClause
+			var sw *ast.TypeSwitchStmt
+			ast.Inspect(f, func(n ast.Node) bool {
+				if s, ok := n.(*ast.TypeSwitchStmt); ok {
+					for _, st := range s.Body.List {
+						if cc, ok := st.(*ast.CaseClause); ok && int(cc.Pos())-1 == w.Offset {
+							clause, sw = cc, s
+						}
+					}
+				}
+				return true
+			})
+			if clause == nil {
+				continue
+			}
+			justified := false
+			for _, x := range clause.List {
+				t := info.Types[x].Type
+				if b, ok := t.(*types.Basic); ok && b.Kind() == types.UntypedNil {
+					continue
+				}
+				for _, st := range sw.Body.List {
+					cc := st.(*ast.CaseClause)
+					if cc == clause {
+						break
+					}
+					for _, y := range cc.List {
+						if it, ok := info.Types[y].Type.Underlying().(*types.Interface); ok && t != nil && types.Implements(t, it) {
+							justified = true
+						}
+					}
+				}
+			}
+			if !justified {
+				return true, fmt.Sprintf("the real checker reports %q (line %d) for a clause that can be reached where it stands: %s", w.Text, w.Line, strings.ReplaceAll(src, "\n", "⏎"))
+			}
+		}
+	}
+	return false, "native: every reported clause is a type implementing an earlier interface case"
 }
